@@ -437,6 +437,8 @@ def classify_path_binding(src, path, scope, depth, seen, loop=False):
     variant = [p[1:] for p in path if p.startswith("@")]
     field = [p for p in path if not p.startswith("@")]
     s = sir.expr_str(src) if src is not None else ""
+    if field and field[-1] in ("top_declares", "sub_strs") and variant in ([], ["Self"]) and s == "self":
+        return Cls("code", "statement buffers of the top scope writer (destructured from self)")
     if variant and field:
         vf = (variant[-1], field[-1])
         if vf in VALIDATED_FIELDS:
@@ -463,7 +465,7 @@ def classify_path_binding(src, path, scope, depth, seen, loop=False):
                 return Cls("userjs", "runtime constant %s" % c)
         if re.search(r"\bscripts\b", s) and field and field[-1] == "1":
             return Cls("userjs", "registered script body (valid JavaScript by contract)")
-        if "top_declares" in s or "sub_strs" in s:
+        if "top_declares" in s or "sub_strs" in s or (field and field[-1] in ("top_declares", "sub_strs")):
             return Cls("code", "statement buffers of the top scope writer")
     if not variant and not field and src is not None:
         return classify(src, scope, depth + 1, seen)
@@ -668,6 +670,8 @@ def ident_rule(ctx, sites):
     shape_ok = len(idxs) == 2 and sir.expr_str(idxs[0]["base"]) == "VAR_NAME_START_CHARS" and sir.expr_str(idxs[1]["base"]) == "VAR_NAME_CHARS" \
         and "%" in sir.expr_str(idxs[0]["idx"]) and "%" in sir.expr_str(idxs[1]["idx"]) \
         and any(n.get("k") == "while" for n in sir.walk(f.body))
+    if not shape_ok and len(idxs) == 2 and all("%" in sir.expr_str(i_["idx"]) for i_ in idxs) and not any(n.get("k") == "while" for n in sir.walk(f.body)):
+        shape_ok = None   # both tables are indexed modulo their length, but the digit loop is written in a form this rule does not read
     obs.append(ob("C02.ident/shape", shape_ok, where, "name = START[id %% %d] . (CHARS[v %% %d])* with v = id / %d, least significant first" % (len(start), len(chars), len(start))))
     # every counter starts at the preserve offset (public idents); private idents are `$`-prefixed
     inits = []
@@ -880,7 +884,9 @@ def sep_rule(ctx):
     ok = False
     if len(fin) == 1:
         lits = [p[1] for n in sir.walk(fin[0].body) for p in ((sir.write_fmt_call(n) or (None, []))[1]) if p[0] == "lit"]
-        ok = "var " in lits and "," in lits and ";" in lits
+        lits += [p[1] for n in sir.walk(fin[0].body) for p in (sir.format_call(n) or []) if p[0] == "lit"]
+        lits += [n["args"][0]["v"] for n in sir.walk(fin[0].body) if n.get("k") == "mcall" and n["m"] == "join" and n["args"] and n["args"][0].get("k") == "lit"]
+        ok = any(l.startswith("var ") for l in lits) and "," in lits and ";" in lits
     obs.append(ob("C02.sep/finish", ok, "proc_gen/mod.rs", "finish() writes `var `, `,` between declarations and `;` between statements: %s" % ok))
     return obs
 
